@@ -213,6 +213,24 @@ class Ctx:
             raise Broken("TLC simulate failed rc=%d on %s/%s:\n%s" % (rc, module, cfgfile, out[-3000:]))
         return res
 
+    def apalache(self, files, main, args, timeout=900, tag=None):
+        """Run apalache-mc check in a scratch copy of the given spec files. Returns (rc, out): 0 = no error, 12 = counterexample."""
+        d = os.path.join(self.scratch, "apa_%d" % len(self.cov["tlc_runs"]))
+        os.makedirs(d, exist_ok=True)
+        for f in files:
+            shutil.copy(os.path.join(VERIF, "spec", f), d)
+        cmd = ["apalache-mc", "check"] + list(args) + [main]
+        t0 = time.time()
+        try:
+            rc, out = sh(cmd, cwd=d, timeout=timeout)
+        except subprocess.TimeoutExpired:
+            raise Broken("apalache timeout on %s %s" % (main, args))
+        self.cov["tlc_runs"].append({"module": main, "cfg": "apalache-mc check " + " ".join(args), "tag": tag or "", "generated": 0, "distinct": 0,
+                                     "rc": rc, "wall_s": round(time.time() - t0, 1)})
+        if rc not in (0, 12):
+            raise Broken("apalache failed rc=%d on %s %s:\n%s" % (rc, main, args, out[-2500:]))
+        return rc, out
+
     def behaviours(self, res):
         """Decode behaviours printed by TLC via PrintT(ToJson(hist))."""
         out = []
